@@ -22,6 +22,7 @@
   yield / finish / create, any length.
 -/
 import LibfiberVerif.Proof.Sched
+import LibfiberVerif.Proof.SchedN
 
 namespace LibfiberVerif.C10
 open LibfiberVerif.Sched
@@ -258,3 +259,307 @@ example : ∃ s', (sys .scheduleFrom).run
   ⟨{ frm := [1, 2, 3], to := [], cur := 0, phase := .running }, by decide⟩
 
 end LibfiberVerif.C10
+
+/-! # C10 on N kernel threads with work stealing (model `SchedN`)
+
+  The multi-thread corollary of §1–§2: model `SchedN.sys maxSteal` (Model/SchedN.lean) has
+  kernel threads `k : Nat` (unbounded), each with `frm k` / `to k` / `cur k` and the events of
+  `Sched` per thread, plus `steal k j w f`: thread `k`, inside a `fiber_scheduler_load_balance`
+  call, takes the TOP (last list element) of thread `j`'s deque `w` and pushes it onto the
+  BOTTOM of its own `schedule_from`.  Assumed facts about load_balance (source lines in
+  Model/SchedN.lean): steal from the top (fiber_scheduler_wsd.c:136-137), push onto the
+  thief's own `schedule_from` bottom (:142), at most `max_steal = 50` per call (:120,:135,:145),
+  called only by a thread in scheduler code whose two deques are both empty
+  (fiber_manager.c:108-128 and :163-171; true on `sched`-free stretches).  The guard
+  `remote_count > local_count` (:135) is deliberately NOT assumed (the theorems hold without
+  it); `steal_pingpong` shows that it does not prevent ping-pong either.
+
+  Vocabulary (Proof/SchedN.lean):
+    QueuedOn k f s     := f ∈ s.frm k ∨ f ∈ s.to k
+    rankOn k f s       := Sched.rank f ⟨s.frm k, s.to k, _, _⟩   (the one-thread rank, on thread k)
+    s.loc f            ghost: the thread holding f (queued or running); exact by `one_place`
+    s.busy             ghost: the fibers that are somewhere; exact by `one_place`
+    s.lb k             ghost: steals made by k in its load_balance call in progress (0 = none)
+    holderSwitches M f s es := number of `switch k _` events in the run of `es` from `s` with
+                          `k` = the thread holding `f` at that moment
+    stealsOf f es      := number of `steal _ _ _ f` events in es
+    isRunOf f e        := e is `switch _ f`;   isSched e := e is `sched _ _`
+    actor e            := the thread performing e
+
+  Tie to the code: per thread this is the one-thread model validated exactly (run order)
+  against the real scheduler; with N threads the run-queue traffic of every runtime log is
+  validated by model `Rt` (bags).  No driver of its own.
+-/
+namespace LibfiberVerif.SchedN
+open LibfiberVerif.Sched (Phase)
+
+/-! ## N.0 a fiber is in at most one place -/
+
+/-- In every reachable state: `loc f = some k` iff `f` is queued on `k` or is `k`'s current
+    fiber; no deque pair holds a fiber twice; the current fiber is not queued; `busy` lists
+    exactly the fibers that are somewhere, once each.  Hence a fiber is in at most one place. -/
+theorem one_place (M : Nat) : ∀ es s, (sys M).run es = some s →
+    (∀ f k, s.loc f = some k ↔ (f ∈ s.frm k ∨ f ∈ s.to k ∨ s.cur k = some f)) ∧
+    (∀ k, (s.frm k ++ s.to k).Nodup) ∧
+    (∀ k f, s.cur k = some f → f ∉ s.frm k ∧ f ∉ s.to k) ∧
+    (∀ f, f ∈ s.busy ↔ s.loc f ≠ none) ∧ s.busy.Nodup ∧
+    (∀ f k j, (f ∈ s.frm k ∨ f ∈ s.to k ∨ s.cur k = some f) →
+      (f ∈ s.frm j ∨ f ∈ s.to j ∨ s.cur j = some f) → k = j) := by
+  intro es s h
+  have hI := inv_of_run h
+  have hloc : ∀ f k, (f ∈ s.frm k ∨ f ∈ s.to k ∨ s.cur k = some f) → s.loc f = some k := by
+    intro f k hk
+    rcases hk with hk | hk | hk
+    · exact hI.frmLoc k f hk
+    · exact hI.toLoc k f hk
+    · exact hI.curLoc k f hk
+  refine ⟨fun f k => ⟨hI.locSome f k, hloc f k⟩, hI.nodup, hI.curNot, hI.busyIff, hI.busyNodup, ?_⟩
+  intro f k j hk hj
+  have := (hloc f k hk).symm.trans (hloc f j hj)
+  exact Option.some.inj this
+
+/-! ## N.1 the rank of a queued fiber on the thread that holds it -/
+
+/-- (a) A context switch on the holder to another fiber strictly decreases the rank, exactly as
+    on one kernel thread. -/
+theorem switch_on_holder_decreases_rank (M : Nat) : ∀ es s, (sys M).run es = some s →
+    ∀ k f, QueuedOn k f s → ∀ g s', g ≠ f → (sys M).step s (.switch k g) = some s' →
+    QueuedOn k f s' ∧ rankOn k f s' < rankOn k f s := by
+  intro es s h k f hq g s' hgf hst
+  exact rank_switch (inv_of_run h) hq hst hgf
+
+/-- (b) Events of OTHER threads never increase the rank of `f` on its holder `k` and leave it
+    queued there — except a steal that moves `f` itself. -/
+theorem other_threads_keep_rank (M : Nat) : ∀ es s, (sys M).run es = some s →
+    ∀ k f, QueuedOn k f s → ∀ e s', actor e ≠ k → isStealOf f e = false →
+    (sys M).step s e = some s' →
+    QueuedOn k f s' ∧ rankOn k f s' ≤ rankOn k f s := by
+  intro es s h k f hq e s' ha hnf hst
+  exact rank_other_thread (inv_of_run h) hq hst ha hnf
+
+/-- (d) Stealing takes from the TOP, i.e. the entry the holder would have run LAST: a steal of
+    another fiber `h ≠ f` from the holder leaves `f`'s rank unchanged, or lowers it by exactly 2
+    when `f` waits in `store_to` and the loot comes out of `schedule_from`. -/
+theorem steal_from_top_exact (M : Nat) : ∀ es s, (sys M).run es = some s →
+    ∀ k f, QueuedOn k f s → ∀ j w h s', h ≠ f → (sys M).step s (.steal j k w h) = some s' →
+    QueuedOn k f s' ∧
+      rankOn k f s' = rankOn k f s - (if w = .frm ∧ f ∈ s.to k then 2 else 0) := by
+  intro es s hr k f hq j w h s' hhf hst
+  exact rank_steal_other (inv_of_run hr) hq hst hhf
+
+/-- The holder's own `yield` / `finish` / `resumed` do not move `f`. -/
+theorem holder_other_events_keep_rank (M : Nat) : ∀ es s, (sys M).run es = some s →
+    ∀ k f, QueuedOn k f s → ∀ e s', actor e = k → isSched e = false →
+    (∀ g, e ≠ .switch k g) → (∀ j w g, e ≠ .steal k j w g) → (sys M).step s e = some s' →
+    QueuedOn k f s' ∧ rankOn k f s' = rankOn k f s := by
+  intro es s h k f hq e s' ha hns hsw hst hstep
+  exact rank_own_other (inv_of_run h) hq hstep ha hns hsw hst
+
+/-- (c) A steal of `f` moves it from its holder `j` to the BOTTOM of the thief's
+    `schedule_from`: rank 0 on the new holder, and the thief's next context switch is to `f`. -/
+theorem stolen_fiber_is_next (M : Nat) : ∀ es s, (sys M).run es = some s →
+    ∀ k j w f s', (sys M).step s (.steal k j w f) = some s' →
+    s.loc f = some j ∧ s'.loc f = some k ∧ QueuedOn k f s' ∧ rankOn k f s' = 0 ∧
+    ∀ g s'', (sys M).step s' (.switch k g) = some s'' → g = f := by
+  intro es s h k j w f s' hst
+  obtain ⟨h1, h2, h3, h4, h5, _⟩ := rank_stolen (inv_of_run h) hst
+  exact ⟨h1, h2, h4, h5, fun g s'' hsw => switch_bottom (M := M) h3 hsw⟩
+
+/-- (c, continued) ... unless the thief pushes more loot on top first.  The holder of a queued
+    `f` can steal only inside the load_balance call in which it stole `f` (`f` is in its
+    `schedule_from`, `store_to` is empty, fewer than `maxSteal` steals so far); each such steal
+    adds exactly 1 to the rank. -/
+theorem holder_steal_adds_one (M : Nat) : ∀ es s, (sys M).run es = some s →
+    ∀ k f, QueuedOn k f s → ∀ j w h s', (sys M).step s (.steal k j w h) = some s' →
+    f ∈ s.frm k ∧ s.to k = [] ∧ 0 < s.lb k ∧ s.lb k < M ∧ s'.lb k = s.lb k + 1 ∧
+    QueuedOn k f s' ∧ rankOn k f s' = rankOn k f s + 1 := by
+  intro es s hr k f hq j w h s' hst
+  exact rank_holder_steals (inv_of_run hr) hq hst
+
+/-- (c, bound) Inside a load_balance call the rank of any fiber in the thief's `schedule_from`
+    is below the number of steals of the call, which is at most `maxSteal` (50 in the code). -/
+theorem loot_rank_lt_max_steal (M : Nat) (hM : 0 < M) : ∀ es s, (sys M).run es = some s →
+    ∀ k f, 0 < s.lb k → f ∈ s.frm k → rankOn k f s < s.lb k ∧ s.lb k ≤ M := by
+  intro es s h k f hl hf
+  have := rank_lt_lb (inv_of_run h) hl hf
+  have hmax : max M 1 = M := by rw [Nat.max_def]; split <;> omega
+  exact ⟨this.1, hmax ▸ this.2⟩
+
+/-! ## N.2 bounded bypass across holders -/
+
+/-- General form.  From any reachable state, along ANY accepted continuation without `sched` in
+    which `f` is not switched to: the context switches on the thread holding `f` at that time,
+    summed over all holders `f` passes through, number at most
+    `2·(number of fibers) + (maxSteal − 1)·(1 + number of times f itself is stolen)` —
+    however often the others yield, whatever the other threads do. -/
+theorem holder_bypass_bounded (M : Nat) : ∀ es s, (sys M).run es = some s →
+    ∀ f es' s', (sys M).runFrom s es' = some s' →
+    (∀ e ∈ es', isSched e = false) → (∀ e ∈ es', isRunOf f e = false) →
+    holderSwitches M f s es' ≤ 2 * s.busy.length + (M - 1) * (1 + stealsOf f es') := by
+  intro es s h f es' s' hr hns hnr
+  have hI := inv_of_run h
+  have h1 := pot_run es' s s' hI hr hns hnr
+  have h2 := pot_le hI f
+  rw [Nat.mul_add]
+  omega
+
+/-- Between two consecutive runs of `f` (absent fiber creation in between): at most
+    `2·n + (maxSteal − 1)·(times f was stolen)` context switches on the threads holding `f`,
+    `n` = number of fibers alive when `f` was switched to the first time. -/
+theorem between_consecutive_runs_N (M : Nat) : ∀ es k f es' k' s_end,
+    (sys M).run (es ++ [.switch k f] ++ es' ++ [.switch k' f]) = some s_end →
+    (∀ e ∈ es', isSched e = false) → (∀ e ∈ es', isRunOf f e = false) →
+    ∃ s1, (sys M).run (es ++ [.switch k f]) = some s1 ∧ s1.loc f = some k ∧
+      holderSwitches M f s1 es' ≤ 2 * s1.busy.length + (M - 1) * stealsOf f es' := by
+  intro es k f es' k' s_end hrun hns hnr
+  simp only [Sys.run, Sys.runFrom_append] at hrun
+  cases h1 : (sys M).runFrom (sys M).init es with
+  | none => simp [h1] at hrun
+  | some s0 =>
+    simp only [h1, Option.bind_some, Sys.runFrom] at hrun
+    cases hst : (sys M).step s0 (.switch k f) with
+    | none => simp [hst] at hrun
+    | some s1 =>
+      simp only [hst, Option.bind_some] at hrun
+      cases hmid : (sys M).runFrom s1 es' with
+      | none => simp [hmid] at hrun
+      | some s2 =>
+        have hr1 : (sys M).run (es ++ [.switch k f]) = some s1 := by
+          simp [Sys.run, Sys.runFrom_append, h1, Sys.runFrom, hst]
+        have hI := inv_of_run hr1
+        obtain ⟨_, frm', to', _, hs1⟩ := step_switch (M := M) hst
+        have hc : s1.cur k = some f := by rw [hs1]; simp
+        have hl := hI.curLoc k f hc
+        have hp := pot_run es' s1 s2 hI hmid hns hnr
+        rw [pot_cur hl hc] at hp
+        exact ⟨s1, hr1, hl, by omega⟩
+
+/-- The code's constant: `max_steal = 50`, so every steal of `f` costs it at most 49 more
+    bypasses. -/
+theorem between_consecutive_runs_code : ∀ es k f es' k' s_end,
+    (sys codeMaxSteal).run (es ++ [.switch k f] ++ es' ++ [.switch k' f]) = some s_end →
+    (∀ e ∈ es', isSched e = false) → (∀ e ∈ es', isRunOf f e = false) →
+    ∃ s1, (sys codeMaxSteal).run (es ++ [.switch k f]) = some s1 ∧
+      holderSwitches codeMaxSteal f s1 es' ≤ 2 * s1.busy.length + 49 * stealsOf f es' := by
+  intro es k f es' k' s_end hrun hns hnr
+  obtain ⟨s1, h1, _, h2⟩ := between_consecutive_runs_N codeMaxSteal es k f es' k' s_end hrun hns hnr
+  exact ⟨s1, h1, h2⟩
+
+/-- Under the hypothesis that rules out steal ping-pong — a stolen fiber is run by its thief
+    before it is stolen again, i.e. `f` is stolen at most once between two of its runs — the
+    bound depends on the number of fibers only: `2·n + 49`. -/
+theorem between_consecutive_runs_no_resteal : ∀ es k f es' k' s_end,
+    (sys codeMaxSteal).run (es ++ [.switch k f] ++ es' ++ [.switch k' f]) = some s_end →
+    (∀ e ∈ es', isSched e = false) → (∀ e ∈ es', isRunOf f e = false) →
+    stealsOf f es' ≤ 1 →
+    ∃ s1, (sys codeMaxSteal).run (es ++ [.switch k f]) = some s1 ∧
+      holderSwitches codeMaxSteal f s1 es' ≤ 2 * s1.busy.length + 49 := by
+  intro es k f es' k' s_end hrun hns hnr h1
+  obtain ⟨s1, hr, h2⟩ := between_consecutive_runs_code es k f es' k' s_end hrun hns hnr
+  exact ⟨s1, hr, by omega⟩
+
+/-- With one kernel thread's worth of events (nobody steals `f`) the bound is the one-thread
+    bound `2·n`. -/
+theorem between_consecutive_runs_not_stolen (M : Nat) : ∀ es k f es' k' s_end,
+    (sys M).run (es ++ [.switch k f] ++ es' ++ [.switch k' f]) = some s_end →
+    (∀ e ∈ es', isSched e = false) → (∀ e ∈ es', isRunOf f e = false) →
+    stealsOf f es' = 0 →
+    ∃ s1, (sys M).run (es ++ [.switch k f]) = some s1 ∧
+      holderSwitches M f s1 es' ≤ 2 * s1.busy.length := by
+  intro es k f es' k' s_end hrun hns hnr h0
+  obtain ⟨s1, hr, _, h2⟩ := between_consecutive_runs_N M es k f es' k' s_end hrun hns hnr
+  exact ⟨s1, hr, by simpa [h0] using h2⟩
+
+/-! ## N.3 steal ping-pong -/
+
+/-- STEAL PING-PONG.  The bounds above count context switches; they do not say that `f` runs.
+    Two idle thieves can pass a ready fiber back and forth for ever: fiber 0 on thread 0 wakes
+    fiber 5 (`sched 0 5`), the idle thread 2 steals it, then — each time before the holder's
+    `fiber_scheduler_next` has popped it — thread 1 steals it from thread 2 and thread 2 steals
+    it back, while fiber 0 polls with `fiber_yield` (which finds nothing on thread 0 and
+    returns).  For every `n` this is an accepted event list with `2·n` steals of fiber 5,
+    `2·n` yields of the poller, no `sched`, no context switch at all — fiber 5 is ready all the
+    time and never runs —, and `remote_count > local_count` holds at every steal (the victim
+    deque has 1 entry, the thief's `schedule_from` 0), so the guard of load_balance does not
+    prevent it.  It takes a kernel-thread schedule in which each thief is overtaken between
+    its `push_bottom` (fiber_scheduler_wsd.c:142) and its pop (:108) every single time. -/
+theorem steal_pingpong (M : Nat) (n : Nat) : ∃ s0 s',
+    (sys M).run [.sched 0 5, .steal 2 0 .to 5, .steal 1 2 .frm 5] = some s0 ∧
+    (sys M).runFrom s0 (stealPingpong n) = some s' ∧
+    CountGuard M init [.sched 0 5, .steal 2 0 .to 5, .steal 1 2 .frm 5] ∧
+    CountGuard M s0 (stealPingpong n) ∧
+    (∀ e ∈ stealPingpong n, isSched e = false ∧ isSwitch e = false) ∧
+    stealsOf 5 (stealPingpong n) = 2 * n ∧
+    (stealPingpong n).count (.yield 0) = 2 * n ∧
+    QueuedOn 1 5 s0 ∧ QueuedOn 1 5 s' := by
+  obtain ⟨s0, h0, hp0, hg0⟩ := pp_setup M
+  obtain ⟨s', h1, hp1, hg1⟩ := pingpong_run M n hp0
+  obtain ⟨c1, c2, c3⟩ := pingpong_props n
+  exact ⟨s0, s', h0, h1, hg0, hg1, c1, c2, c3, Or.inl (by simp [hp0.frm1]),
+    Or.inl (by simp [hp1.frm1])⟩
+
+/-- Consequently the number of steals of a ready fiber before it runs is not bounded by
+    anything: the term `stealsOf f es'` in the theorems above cannot be replaced by a constant
+    without a hypothesis such as the one of `between_consecutive_runs_no_resteal`. -/
+theorem steals_unbounded (M : Nat) (B : Nat) : ∃ s0 es' s',
+    (sys M).run [.sched 0 5, .steal 2 0 .to 5, .steal 1 2 .frm 5] = some s0 ∧
+    (sys M).runFrom s0 es' = some s' ∧
+    (∀ e ∈ es', isSched e = false) ∧ (∀ e ∈ es', isRunOf 5 e = false) ∧
+    B < stealsOf 5 es' := by
+  obtain ⟨s0, s', h0, h1, _, _, c1, c2, _, _, _⟩ := steal_pingpong M (B + 1)
+  refine ⟨s0, stealPingpong (B + 1), s', h0, h1, fun e he => (c1 e he).1, ?_, by omega⟩
+  intro e he
+  have := (c1 e he).2
+  cases e <;> simp_all [isSwitch, isRunOf]
+
+/-! ## N.4 non-vacuity (2 kernel threads, a steal in the middle of a batch) -/
+
+/-- main fiber 0 creates 1, 2, 3 on thread 0; 3 and 2 run and yield; 1 is about to run -/
+def exPre : List Ev :=
+  [.sched 0 1, .sched 0 2, .sched 0 3, .yield 0, .switch 0 3, .resumed 0, .yield 0,
+   .switch 0 2, .resumed 0, .yield 0]
+
+/-- Between two runs of fiber 1: it yields on thread 0 and is bypassed there by 2 and 3; then,
+    in the middle of the batch, the idle thread 1 steals it from the top of `store_to 0`, steals
+    fiber 0 from `schedule_from 0` on top of it in the same load_balance call, runs fiber 0
+    first, and finally fiber 1. -/
+def exMid : List Ev :=
+  [.resumed 0, .yield 0, .switch 0 2, .resumed 0, .yield 0, .switch 0 3,
+   .steal 1 0 .to 1, .steal 1 0 .frm 0, .switch 1 0, .resumed 1, .yield 1]
+
+/-- The hypotheses of `between_consecutive_runs_N/_code/_no_resteal` are satisfiable by a
+    two-thread run with a steal in the middle of a batch: 4 fibers, fiber 1 is stolen once,
+    and is bypassed 3 times on its holders (twice on thread 0, once on the thief by the loot
+    pushed on top of it) before it runs again, on thread 1. -/
+example : ∃ s1 s_end,
+    (sys codeMaxSteal).run (exPre ++ [.switch 0 1]) = some s1 ∧
+    (sys codeMaxSteal).run (exPre ++ [.switch 0 1] ++ exMid ++ [.switch 1 1]) = some s_end ∧
+    (∀ e ∈ exMid, isSched e = false) ∧ (∀ e ∈ exMid, isRunOf 1 e = false) ∧
+    stealsOf 1 exMid = 1 ∧ s1.busy.length = 4 ∧ s1.loc 1 = some 0 ∧
+    holderSwitches codeMaxSteal 1 s1 exMid = 3 ∧
+    s_end.loc 1 = some 1 ∧ s_end.cur 1 = some 1 ∧ s_end.cur 0 = some 3 ∧ s_end.to 0 = [2] :=
+  ⟨_, _, rfl, rfl, by decide, by decide, by decide, rfl, rfl, by decide, rfl, rfl, rfl, rfl⟩
+
+/-- Clauses (c) and (d) on the same run.  Right before the steals thread 0 holds
+    `schedule_from = [0]`, `store_to = [2, 1]`: fiber 1 has rank `2·1 + 1 = 3` there and fiber 2
+    rank `2`.  Stealing fiber 1 (the TOP of `store_to`) puts it at rank 0 on thread 1 and leaves
+    fiber 2 at rank 2; the next steal (fiber 0, out of `schedule_from 0`) raises the stolen
+    fiber 1 to rank 1 on the thief and LOWERS fiber 2 on thread 0 by 2, to rank 0. -/
+example :
+    ((sys codeMaxSteal).run (exPre ++ [.switch 0 1] ++ exMid.take 6)).map
+        (fun s => (s.frm 0, s.to 0, rankOn 0 1 s, rankOn 0 2 s)) = some ([0], [2, 1], 3, 2) ∧
+    ((sys codeMaxSteal).run (exPre ++ [.switch 0 1] ++ exMid.take 7)).map
+        (fun s => (s.frm 1, s.to 0, rankOn 1 1 s, rankOn 0 2 s, s.lb 1)) =
+      some ([1], [2], 0, 2, 1) ∧
+    ((sys codeMaxSteal).run (exPre ++ [.switch 0 1] ++ exMid.take 8)).map
+        (fun s => (s.frm 1, s.frm 0, rankOn 1 1 s, rankOn 0 2 s, s.lb 1)) =
+      some ([0, 1], [], 1, 0, 2) := by decide
+
+/-- The first cycles of the steal ping-pong, concretely: after 3 + 12 events fiber 5 has been
+    stolen 6 times, nothing has run, and it sits on thread 1 again. -/
+example : ((sys codeMaxSteal).run
+      ([.sched 0 5, .steal 2 0 .to 5, .steal 1 2 .frm 5] ++ stealPingpong 2)).map
+      (fun s => (s.frm 1, s.frm 2, s.loc 5, s.cur 0, s.cur 1, s.cur 2)) =
+    some ([5], [], some 1, some 0, none, none) := rfl
+
+end LibfiberVerif.SchedN
